@@ -213,7 +213,7 @@ def siblings(ctx):
         val = None
         if isinstance(q, ast.JoinedStr):
             fv = [x for x in q.values if isinstance(x, ast.FormattedValue)]
-            val = strip_refs(fv[0].value) if fv else None
+            val = strip_refs(strip_clamp(fv[0].value)) if fv else None
         if not (isinstance(val, ast.BinOp) and isinstance(val.op, ast.Sub)):
             raise AnalysisError('Container.fill_to: required amount is not target - current')
         td = total_descriptor(val.right)
